@@ -163,13 +163,21 @@ Definition bit_and := bitop Z.land.
 Definition bit_or := bitop Z.lor.
 Definition bit_xor := bitop Z.lxor.
 
+(* BigInt::pow has constant-time paths for the bases 0, 1 and -1 (num-bigint: is_one / is_zero / sign by
+   parity); writing them into the model keeps it executable for astronomically large exponents *)
+Definition zpow (a b : Z) : Z :=
+  if a =? 0 then (if b =? 0 then 1 else 0)
+  else if a =? 1 then 1
+  else if a =? -1 then (if Z.even b then 1 else -1)
+  else a ^ b.
+
 (* impl Pow<Self> ; BigUint::try_from(negative).unwrap() is the only panic *)
 Definition pow (a b : lbi) : res lbi :=
   if den b <? 0 then Stuck "BigUint::try_from(negative)" else
   match a, b with
   | Short s1, Short s2 =>
-      if u32b s2 && i64b (s1 ^ s2) then Val (Short (s1 ^ s2)) else Val (from (s1 ^ s2))
-  | _, _ => Val (from (den a ^ den b))
+      if u32b s2 && i64b (zpow s1 s2) then Val (Short (zpow s1 s2)) else Val (from (zpow s1 s2))
+  | _, _ => Val (from (zpow (den a) (den b)))
   end.
 
 (* impl Signed *)
@@ -213,3 +221,8 @@ Definition first_u64_digit (a : lbi) : lbi :=
 
 (* Display : decimal text of the value (the same for both constructors) *)
 Definition to_Z (a : lbi) : Z := den a.
+
+(* FromPrimitive::from_f64 on a float that holds the integer z exactly (fract = 0):
+   i64::from_f64 succeeds iff the value is in the i64 range, else Long(assert_is_long(BigInt::from_f64)) *)
+Definition from_f64_exact (z : Z) : res lbi :=
+  if i64b z then Val (Short z) else assert_is_long z.
